@@ -284,6 +284,15 @@ def check_analytic_quadrature(case, rec):
                 tol_r += graze
                 tol_L += 2 * graze
                 tol_T += 2 * graze * ice_spec["n0"] / C
+        n_surf = ice_spec["n0"] - ice_spec["k"] * math.exp(ice_spec["a"] * sorted(ice_spec["range"])[1])
+        if not direct and abs(1 - beta / n_surf) < 1e-4:
+            # the ray tops out within centimetres of the surface: mirrored there or turned just below
+            # (the tracer clamps the turning depth to the surface) - same allowance as in the ODE
+            # sub-check (seen there: 2 cm at L = 84 m, 12 cm at L = 230 m; here 11 cm at L = 37 m)
+            sg = 0.1 + 2e-3 * L
+            tol_r += sg
+            tol_L += 2 * sg
+            tol_T += 2 * sg * ice_spec["n0"] / C
         errs = (abs(q[0] - rho), abs(q[1] - L), abs(q[2] - T))
         if errs[0] > tol_r or errs[1] > tol_L or errs[2] > tol_T:
             # conditioning of the comparison itself: the reported direction carries beta
